@@ -32,7 +32,7 @@ func main() {
 		return
 	case *seq != "":
 		d, _ := strconv.Atoi(*seq)
-		json.NewEncoder(os.Stdout).Encode(c20.SeqWorker(d))
+		json.NewEncoder(os.Stdout).Encode(c20.SeqWorker(d, *tier == "thorough"))
 		return
 	}
 	r := report.New("C20", "exploration", *tier)
